@@ -1,7 +1,7 @@
 SPECIFICATION Spec
 CONSTANTS
   Ids = {1, 2}
-  Cfgs = {"c1", "c2", "c3", "c4"}
+  Cfgs = {"c1", "c2", "c3", "c5", "c6"}
   OwnScaleCfgs = {"c3"}
   ShareDefaultScale = TRUE
   MaxLen = 4
